@@ -1,8 +1,20 @@
 #!/venv/bin/python
 """Print the prompt for a mutant-seeding sub-agent for property <id> (property text + scratch worktree only; nothing from /verif)."""
 import json, sys
+import os, re
 pid = sys.argv[1]
 n = sys.argv[2] if len(sys.argv) > 2 else "3"
+first = int(sys.argv[3]) if len(sys.argv) > 3 else 1
+avoid = []
+sd = "/verif/seeded"
+if first > 1 and os.path.isdir(sd):
+    for name in sorted(os.listdir(sd)):
+        if name.startswith(pid + "-"):
+            patch = open(os.path.join(sd, name, "patch.diff")).read()
+            fs = sorted(set(re.findall(r"^\+\+\+ b/(\S+)", patch, flags=re.M)))
+            fn = sorted(set(re.findall(r"^@@.*@@\s*(?:async )?(?:def|class)\s+(\w+)", patch, flags=re.M)))
+            hl = open(os.path.join(sd, name, "notes.md")).read().strip().splitlines()[0].lstrip("# ").strip() if os.path.exists(os.path.join(sd, name, "notes.md")) else ""
+            avoid.append(f"  - {', '.join(fs)} ({', '.join(fn)}): {hl[:140]}")
 for l in open('/verif/properties.jsonl'):
     p = json.loads(l)
     if p['id'] == pid:
@@ -22,7 +34,8 @@ It must hold: {p['quantifier']['text']}
 Where the code that is meant to make it hold lives ({', '.join(p['anchors']['files'])}):
 {mech}
 
-WHAT TO PRODUCE: {n} different changes ("mutants"), each in its own directory {out}/m1, {out}/m2, ... containing:
+{("ALREADY TAKEN (an earlier round produced these; do NOT repeat them or trivial variations of them — pick other functions, other clauses of the property, helper/sibling code paths, data-model classes, or changes where two sites cooperate):" + chr(10) + chr(10).join(avoid) + chr(10)) if avoid else ""}
+WHAT TO PRODUCE: {n} different changes ("mutants"), each in its own directory {out}/m{first}, {out}/m{first + 1}, ... containing:
   * patch.diff   — `git diff` of the change against the worktree HEAD (must apply with `git apply` to a clean checkout); touch only files under esrally/ (no test edits).
   * demo.py      — a small self-contained program (or pytest file named demo_test.py) that exercises the real rally code and FAILS (non-zero exit / failing assertion) with the change applied and PASSES without it. It should demonstrate the violation of the property above (wrong observable behaviour), not merely detect the text of the change. Run it as `cd <checkout> && PYTHONPATH=<checkout> /venv/bin/python demo.py`; do not hard-code {wt} inside it (use the current directory / PYTHONPATH).
   * notes.md     — 5-15 lines: what the change is, why it breaks the property, what specific condition is needed for the violation to manifest, and why the existing tests do not notice.
